@@ -20,6 +20,9 @@ VARIABLES m, basis
 vars == <<m, basis>>
 
 Choose(nn, k) == MDiv(MFact(nn), MMul(MFact(k), MFact(nn - k)))
+Pt(x) == MRat(x[1], x[2])
+RECURSIVE PDerN(_, _)
+PDerN(p, j) == IF j = 0 THEN p ELSE PDerN(PDerQ(p), j - 1)
 Mu(j) == MDiv(Choose(2 * j, j), MPow(MQ(4), j))                     \* moment of u^(2j)
 MuTab == [j \in 0..48 |-> Mu(j)]                                      \* constant: evaluated once
 Mono(d) == [i \in 1..(d + 1) |-> IF i = d + 1 THEN MOne ELSE MZero]   \* u^d
@@ -34,13 +37,18 @@ Inner(mm, f, g) == IF mm = 0 THEN EvenMoments(PMulQ(PDerQ(f), PDerQ(g)))
                    ELSE MMul(MRat(1, 2), MAdd(EvenMoments(PMulQ(PDerQ(f), PDerQ(g))), MScale(mm * mm, EvenMoments(DivU2(PMulQ(f, g))))))
 
 \* Gram-Schmidt as a step machine: `basis` holds <<A_k, N_k>> for the orders computed so far (no recomputation)
-Project(mm, phi, bs) == LET P[j \in 0..Len(bs)] == IF j = 0 THEN phi
-                                                   ELSE PAddQ(P[j - 1], PScaleQ(MNeg(MDiv(Inner(mm, phi, bs[j][1]), bs[j][2])), bs[j][1]))
+\* returns <<A, gamma>>: the projected polynomial in u and its coefficients in the phi basis ( A = SUM_k gamma_k phi_k,
+\* so that  A(u) = u^2 (1 - u^2) q(x)  (m = 0)  or  u^m q(x)  (m > 0)  with  q(x) = SUM_k gamma_k x^k,  x = u^2 )
+Unit(k) == [i \in 1..(k + 1) |-> IF i = k + 1 THEN MOne ELSE MZero]
+Project(mm, phi, bs) == LET P[j \in 0..Len(bs)] ==
+                              IF j = 0 THEN <<phi, Unit(Len(bs))>>
+                              ELSE LET c == MNeg(MDiv(Inner(mm, phi, bs[j][1]), bs[j][2])) IN
+                                   <<PAddQ(P[j - 1][1], PScaleQ(c, bs[j][1])), PAddQ(P[j - 1][2], PScaleQ(c, bs[j][3]))>>
                         IN P[Len(bs)]
 
 Init == m \in Ms /\ basis = << >>
 Step == /\ Len(basis) <= MaxN
-        /\ LET a == Project(m, Phi(m, Len(basis)), basis) IN basis' = Append(basis, <<a, Inner(m, a, a)>>)
+        /\ LET pr == Project(m, Phi(m, Len(basis)), basis) IN basis' = Append(basis, <<pr[1], Inner(m, pr[1], pr[1]), pr[2]>>)
         /\ UNCHANGED m
 Next == Step
 Spec == Init /\ [][Next]_vars
@@ -50,17 +58,21 @@ Orthogonal == Len(basis) > 0 =>
    /\ \A j \in 1..(Len(basis) - 1) : Inner(m, basis[Len(basis)][1], basis[j][1]) = MZero
    /\ MIsUnit(basis[Len(basis)][2])                                      \* positive-definite: no zero norm
    /\ OddFree(PMulQ(PDerQ(basis[Len(basis)][1]), PDerQ(basis[Len(basis)][1])))
+GammaConsistent == Len(basis) > 0 =>          \* A = prefix * q(u^2), checked at a point: u = 1/2
+   LET e == basis[Len(basis)]  u == <<1, 2>>  xx == <<1, 4>> IN
+   PEvalQ(e[1], Pt(u)) = MMul(IF m = 0 THEN Pt(RMul(xx, RSub(<<1, 1>>, xx))) ELSE MPow(Pt(u), m), PEvalQ(e[3], Pt(xx)))
 Calibrated == Len(basis) > 0 =>
    IF m = 0 THEN basis[1][2] = MOne ELSE basis[1][2] = MDiv(MScale(m * m, Choose(2 * m - 2, m - 1)), MPow(MQ(4), m - 1))
 
 PtsSeq(S) == LET RECURSIVE H(_, _)
                  H(T, acc) == IF T = {} THEN acc ELSE LET x == CHOOSE y \in T : \A z \in T : RLeq(y, z) IN H(T \ {x}, Append(acc, x))
              IN H(S, << >>)
-Pt(x) == MRat(x[1], x[2])
 Rec == LET a == basis[Len(basis)][1]  pts == PtsSeq(RadPts) IN
        [fam |-> IF m = 0 THEN "qbfs" ELSE "q2d", m |-> m, n |-> n, pts |-> pts, normsq |-> basis[Len(basis)][2],
         lead |-> a[(IF m = 0 THEN 2 ELSE m) + 1],                          \* coefficient of u^2 (m = 0) or u^m : its sign fixes Q(0) > 0
         vals |-> [i \in 1..Len(pts) |-> PEvalQ(a, Pt(pts[i]))],
-        ders |-> [i \in 1..Len(pts) |-> PEvalQ(PDerQ(a), Pt(pts[i]))]]
+        ders |-> [i \in 1..Len(pts) |-> PEvalQ(PDerQ(a), Pt(pts[i]))],
+        \* q(x) = SUM gamma_k x^k and its derivatives with respect to x, at x = u^2
+        qders |-> [jd \in 1..4 |-> [i \in 1..Len(pts) |-> PEvalQ(PDerN(basis[Len(basis)][3], jd - 1), Pt(RMul(pts[i], pts[i])))]]]
 Emit == (EmitOn /\ Len(basis) > 0) => PrintT(<<"EMIT", ToJson(Rec)>>)
 =============================================================================
